@@ -160,6 +160,7 @@ import BGV
 #print axioms BGV.C10_getSubgraph
 #print axioms BGV.C10_bad_vertex
 #print axioms BGV.C10_getSubgraphWithRemap
+#print axioms BGV.C10_bad_vertex_anywhere
 #print axioms BGV.C10_und_getSubgraph
 #print axioms BGV.C10_und_getSubgraphWithRemap
 
@@ -171,6 +172,7 @@ import BGV
 #print axioms BGV.C11_findGeodesics
 #print axioms BGV.C11_findAllGeodesics
 #print axioms BGV.C11_findGeodesicsFromVertex
+#print axioms BGV.C11_findAllGeodesicsFromVertex
 
 -- C12
 #print axioms BGV.C12_dijkstra_correct
